@@ -4,13 +4,13 @@ import json
 import os
 
 ROOT = os.path.dirname(os.path.abspath(__file__))
-rows, rows2, rows3, rows4, rows5, rows6 = [], [], [], [], [], []
+rows, rows2, rows3, rows4, rows5, rows6, rows7 = [], [], [], [], [], [], []
 for d in sorted(glob.glob(os.path.join(ROOT, "seeded", "*", ""))):
     m = json.load(open(d + "meta.json"))
-    if m.get("round") in (2, 3, 4, 5, 6):
+    if m.get("round") in (2, 3, 4, 5, 6, 7):
         det = (m.get("detection") or {}).get("quick") or {}
         fp = (m.get("detection") or {}).get("first-pass") or {}
-        {2: rows2, 3: rows3, 4: rows4, 5: rows5, 6: rows6}[m.get("round")].append((os.path.basename(d.rstrip("/")), m["property"], (m.get("summary") or "").replace("|", "/").replace("\n", " ")[:260], (m.get("needs_to_manifest") or "").replace("|", "/").replace("\n", " ")[:200],
+        {2: rows2, 3: rows3, 4: rows4, 5: rows5, 6: rows6, 7: rows7}[m.get("round")].append((os.path.basename(d.rstrip("/")), m["property"], (m.get("summary") or "").replace("|", "/").replace("\n", " ")[:260], (m.get("needs_to_manifest") or "").replace("|", "/").replace("\n", " ")[:200],
                       "detected" if fp.get("detected") else ("harness error" if fp.get("exit") == 3 else "missed"),
                       ("detected (%d VIOLATION lines)" % det.get("violation_lines", 0)) if det.get("detected") else (m.get("outside_claim") or f"NOT detected ({det.get('exit')})")))
         continue
@@ -94,6 +94,13 @@ for r in rows6:
 nd6 = sum(1 for r in rows6 if r[5].startswith("detected"))
 nf6 = sum(1 for r in rows6 if r[4] == "detected")
 txt += ["", f"Round 6: {nf6} of {len(rows6)} were reported by the check of the targeted property as it stood before the round; {nd6} of {len(rows6)} are reported now.", ""]
+txt += open(os.path.join(ROOT, "seeded", "ROUND7.md")).read().rstrip().split("\n") + ["",
+        "| seeded change (round 7) | what it does | needs, to manifest | first pass | after strengthening (quick tier) |", "|---|---|---|---|---|"]
+for r in rows7:
+    txt.append(f"| {r[0]} | {r[2]} | {r[3]} | {r[4]} | {r[1]}: {r[5]} |")
+nd7 = sum(1 for r in rows7 if r[5].startswith("detected"))
+nf7 = sum(1 for r in rows7 if r[4] == "detected")
+txt += ["", f"Round 7: {nf7} of {len(rows7)} were reported by the check of the targeted property as it stood before the round; {nd7} of {len(rows7)} are reported now.", ""]
 s = open(os.path.join(ROOT, "DESIGN.md")).read()
 if "## 14. Seeded defects" in s:
     s = s[: s.index("## 14. Seeded defects")]
